@@ -1,4 +1,5 @@
 //! Reference models and oracles. None of these calls into the crate under test.
+pub mod bytestream;
 pub mod refparse;
 pub mod rto;
 pub mod seq;
